@@ -41,7 +41,7 @@ def ticking_source(nid):
 def case(draw, tier):
     big = tier == "thorough"
     horizon = draw(st.integers(3, 14 if big else 8))
-    shape = draw(st.sampled_from(["flat", "flat", "nested", "map", "switch", "reduce"]))
+    shape = draw(st.sampled_from(["flat", "flat", "nested", "map", "switch", "reduce", "tslmap", "oreduce"]))
     n = draw(st.integers(2, 6))
     stmts = [ticking_source("n0")]
     subs = {}
@@ -109,6 +109,45 @@ def case(draw, tier):
                 script.append([t, [{"k": "D", "ops": [["set", k, t]] if draw(st.integers(0, 3)) else [["erase", k]]}]])
         stmts.append({"id": "d", "op": "src", "schema": "TSD[int,TS[int]]", "script": script})
         stmts.append({"id": "red", "op": "op", "name": "reduce", "args": [{"fn": "C"}, {"ts": "d"}] + ([{"sc": 100, "t": "int"}] if draw(st.booleans()) else []), "has_out": True})
+        stmts.append({"id": "after", "op": "node", "ins": ["red"], "log_inputs": False, "valid": []})
+        targets += ["C.c0", "C.c1", "after"]
+    elif shape == "tslmap":
+        # map_ over a dynamic (grow-only) list: children appear while the run is going (runtime/tsl_map_node.cpp)
+        subs["F"] = {"params": ["TS[int]"], "names": ["x"], "out": "TS[int]", "ret": "f1", "stmts": [
+            {"id": "f0", "op": "node", "ins": [{"arg": 0}], "out": "TS[int]", "fn": "sum", "log_inputs": False},
+            {"id": "f1", "op": "node", "ins": ["f0"], "out": "TS[int]", "fn": "acc", "log_inputs": False}]}
+        script, top = [], 0
+        for t in range(0, horizon):
+            if t == 0 or draw(st.booleans()):
+                i = draw(st.integers(0, min(top + 2, 9)))
+                top = max(top, i)
+                script.append([t, [{"k": "i", "i": i, "op": {"k": "set", "v": t}}]])
+        stmts.append({"id": "d", "op": "src", "schema": "TSL[TS[int],0]", "script": script})
+        stmts.append({"id": "m", "op": "op", "name": "map_", "args": [{"fn": "F"}, {"ts": "d"}], "has_out": True})
+        stmts.append({"id": "after", "op": "node", "ins": ["m"], "log_inputs": False, "valid": []})
+        targets += ["F.f0", "F.f1", "after"]
+    elif shape == "oreduce":
+        # ordered (left-fold) reduce over a contiguous TSD[int, TS[int]] with a live zero: every length change rebuilds the
+        # chain of combiner graphs in the other bank and retires the old chain (runtime/ordered_reduce_node.cpp)
+        subs["C"] = {"params": ["TS[int]", "TS[int]"], "names": ["lhs", "rhs"], "out": "TS[int]", "ret": "c1", "stmts": [
+            {"id": "c0", "op": "node", "ins": [{"arg": 0}], "out": "TS[int]", "fn": "sum", "log_inputs": False},
+            {"id": "c1", "op": "node", "ins": ["c0", {"arg": 1}], "out": "TS[int]", "fn": "sum", "log_inputs": False}]}
+        length = draw(st.integers(1, 4))
+        script = [[0, [{"k": "D", "ops": [["set", k, k + 1] for k in range(length)]}]]]
+        for t in range(1, horizon):
+            r = draw(st.integers(0, 5))
+            if r == 0 and length > 0:
+                length -= 1
+                script.append([t, [{"k": "D", "ops": [["erase", length]]}]])
+            elif r == 1 and length < 7:
+                script.append([t, [{"k": "D", "ops": [["set", length, t]]}]])
+                length += 1
+            elif r == 2 and length > 0:
+                script.append([t, [{"k": "D", "ops": [["set", draw(st.integers(0, length - 1)), t]]}]])
+        stmts.append({"id": "d", "op": "src", "schema": "TSD[int,TS[int]]", "script": script})
+        stmts.append({"id": "z", "op": "src", "schema": "TS[int]", "script": [[0, [{"k": "set", "v": 100}]]]})
+        stmts.append({"id": "red", "op": "op", "name": "reduce", "has_out": True,
+                      "args": [{"fn": "C"}, {"ts": "d"}, {"ts": "z"}, {"sc": False, "t": "bool", "name": "is_associative"}]})
         stmts.append({"id": "after", "op": "node", "ins": ["red"], "log_inputs": False, "valid": []})
         targets += ["C.c0", "C.c1", "after"]
     nfaults = draw(st.sampled_from([0, 1, 1, 1, 2, 2]))
